@@ -327,7 +327,7 @@ impl Check for LpCustody {
                     // denom of the world (funds attached beyond the stated amounts included)
                     let helper_holdings = |iw: &IncWorld| -> Vec<u128> {
                         let mut v = vec![iw.w.bal(&iw.lp, &helper), iw.w.bal(&pa[0], &helper), iw.w.bal(&pa[1], &helper)];
-                        for d in ["ulp", "urew", "ufee", "uaaa", "ubbb"] {
+                        for d in ["ulp", "urew", "urewf", "uaaa", "ubbb"] {
                             v.push(iw.w.bank(&helper, d));
                         }
                         v
@@ -386,7 +386,7 @@ impl Check for LpCustody {
                     let ha = helper_holdings(&iw);
                     ensure!(
                         ha == hb,
-                        "step {step}: the frontend helper's holdings (LP, pool assets, then bank denoms ulp/urew/ufee/uaaa/ubbb) changed across a deposit: {hb:?} -> {ha:?} (result ok: {})",
+                        "step {step}: the frontend helper's holdings (LP, pool assets, then bank denoms ulp/urew/urewf/uaaa/ubbb) changed across a deposit: {hb:?} -> {ha:?} (result ok: {})",
                         r.is_ok()
                     );
                     if r.is_ok() {
@@ -403,7 +403,7 @@ impl Check for LpCustody {
                     let lp = iw.lp.clone();
                     let dcl = declared.u128();
                     let send = if *exact { dcl } else { dcl - 1 };
-                    let mut funds = vec![coin(1000, "ufee")];
+                    let mut funds = vec![coin(1000, "urewf")];
                     match &lp {
                         AssetInfo::NativeToken { denom } => funds.push(coin(send, denom)),
                         AssetInfo::Token { .. } => iw.set_allowance(&who, &lp, send),
